@@ -93,9 +93,12 @@ def _attached_list(e: ast.AST) -> Optional[Tuple[str, str]]:
     return None
 
 
-def tail_descriptor(rows: List[codec.WRow]) -> Dict[str, Any]:
+def tail_descriptor(rows: List[codec.WRow], fn: Optional[ast.FunctionDef] = None) -> Dict[str, Any]:
+    from ..packed import subst_locals
     d: Dict[str, Any] = {"order": []}
     for r in rows:
+        if fn is not None and r.kind == "chunk" and r.cid == "CMID" and r.payload_expr is not None:
+            r.payload_expr = subst_locals(fn, r.payload_expr)
         if r.kind == "chunk" and r.cid in ("CVAL", "CMID", "CHNK", "SEND"):
             d["order"].append(r.cid)
             p = r.payload
@@ -116,6 +119,7 @@ def tail_descriptor(rows: List[codec.WRow]) -> Dict[str, Any]:
                 for n in ast.walk(r.payload_expr):
                     if isinstance(n, (ast.GeneratorExp, ast.ListComp)) and "cmid_data" in norm(n.elt):
                         d["cmid_elem"] = re.sub(r"\[.*?\]", "[name]", _norm_recv(norm(n.elt)))
+                        d["cmid_filter"] = [norm(i) for g in n.generators for i in g.ifs] + (["nested"] if len(n.generators) > 1 else [])
                 d["cmid_join"] = norm(r.payload_expr).startswith("b''.join(")
             elif r.cid == "CHNK":
                 d["chnk_fmt"] = p.fmt.show() if p.fmt else None
@@ -132,7 +136,7 @@ def sibling_writers(repo: Repo, rep, P: str):
     synth = repo.cls("Synth", module="rv.synth")
     prows = [r for r in codec.writer_rows(repo, proj, repo.own_method(proj, "chunks")) if any("self.modules" in l for l in r.loops)]
     srows = codec.writer_rows(repo, synth, repo.own_method(synth, "chunks"))
-    pd, sd = tail_descriptor(prows), tail_descriptor(srows)
+    pd, sd = tail_descriptor(prows, repo.own_method(proj, "chunks")), tail_descriptor(srows, repo.own_method(synth, "chunks"))
     pcon, scon = f"{proj.file.rel}:Project.chunks", f"{synth.file.rel}:Synth.chunks"
     rep.func("rv.project.Project.chunks[module tail] ~ rv.synth.Synth.chunks")
     want_order = ["CVAL", "CMID", "CHNK", "SPECIAL", "SEND"]
@@ -159,6 +163,10 @@ def sibling_writers(repo: Repo, rep, P: str):
                           "controller list; otherwise bindings shift to other controllers on load", con.split(":")[0])
         else:
             rep.ok(f"{P}.R2", con, f"CMID joined over the CVAL list {d.get('cmid_list')}")
+        if d.get("cmid_filter"):
+            rep.violation(f"{P}.R2", con, f"CMID entries filtered by {d.get('cmid_filter')}",
+                          f"{name} writer: CMID entries are positional (entry i belongs to the i-th stored controller); skipping an entry "
+                          "shifts every later binding to an earlier controller on load", con.split(":")[0])
         if d.get("cmid_elem") != "M.controller_midi_maps[name].cmid_data":
             rep.violation(f"{P}.R2", con, f"CMID element {d.get('cmid_elem')}", "CMID entries must be controller_midi_maps[name].cmid_data",
                           con.split(":")[0])
@@ -189,22 +197,143 @@ def sibling_writers(repo: Repo, rep, P: str):
                    nontrivial=False)
         else:
             rep.violation(f"{P}.R2", scon, "recompute after the filter", "attachment must be re-derived before it is consulted", synth.file.rel)
-    # header delegate: Synth passes in_project=False
-    dele = [r for r in srows if r.kind == "delegate" and "iff_chunks" in r.delegate and "specialized" not in r.delegate]
-    if dele and "in_project=False" in dele[0].delegate:
-        rep.ok(f"{P}.R2", scon, dele[0].delegate, "stand-alone context", nontrivial=False)
-    else:
-        rep.violation(f"{P}.R2", scon, dele[0].delegate if dele else "missing", "the synth writer must emit the module header with in_project=False",
-                      synth.file.rel)
+    synth_header_context(repo, rep, P, "R2")
     # reader side: CMID entries are applied in the order of the controller list
+    cmid_reader_rule(repo, rep, P, "R2")
+
+
+def synth_header_context(repo: Repo, rep, P: str, rule: str):
+    """Synth.chunks writes the module header in the stand-alone context: `iff_chunks(in_project=False)`.  Without the
+    argument the module decides from its own parent, and a module attached to a project puts the in-project-only chunks
+    (SXXX/SYYY/SZZZ/SVPR …) into the .sunsynth."""
+    synth = repo.cls("Synth", module="rv.synth")
+    fn = repo.own_method(synth, "chunks")
+    scon = f"{synth.file.rel}:Synth.chunks"
+    calls = [c for c in walk_no_nested(fn) if isinstance(c, ast.Call) and isinstance(c.func, ast.Attribute) and c.func.attr == "iff_chunks"]
+    if not calls:
+        rep.violation(f"{P}.{rule}", scon, "iff_chunks(...)", "the synth writer no longer emits the module header through Module.iff_chunks",
+                      f"{synth.file.rel}:{fn.lineno}")
+        return
+    for c in calls:
+        arg = next((k.value for k in c.keywords if k.arg == "in_project"), c.args[0] if c.args else None)
+        where = f"{synth.file.rel}:{c.lineno}"
+        if arg is None:
+            rep.violation(f"{P}.{rule}", scon, norm(c), "the synth writer must emit the module header with in_project=False "
+                          "(without it a module that belongs to a project writes its in-project-only chunks into the .sunsynth)", where)
+            continue
+        try:
+            v = repo.fold(arg, ci=synth)
+        except NotConst:
+            rep.inconclusive(f"{P}.{rule}", scon, norm(c), "in_project argument is not constant", where)
+            continue
+        if v is False:
+            rep.ok(f"{P}.{rule}", scon, norm(c), "stand-alone context", nontrivial=False)
+        else:
+            rep.violation(f"{P}.{rule}", scon, norm(c), "the synth writer must emit the module header with in_project=False", where)
+
+
+def _resolve(e: ast.expr, defs: Dict[str, ast.expr], depth: int = 5) -> ast.expr:
+    import copy
+
+    class Sub(ast.NodeTransformer):
+        def visit_Name(self, node):
+            if isinstance(node.ctx, ast.Load) and node.id in defs and depth > 0:
+                return _resolve(defs[node.id], defs, depth - 1)
+            return node
+    return Sub().visit(copy.deepcopy(e))
+
+
+def _once_defs(stmts) -> Dict[str, ast.expr]:
+    """name -> rhs for names assigned exactly once at the top level of a statement list."""
+    cnt: Dict[str, int] = {}
+    rhs: Dict[str, ast.expr] = {}
+    for st in stmts:
+        for n in ast.walk(st):
+            if isinstance(n, ast.Name) and isinstance(n.ctx, ast.Store):
+                cnt[n.id] = cnt.get(n.id, 0) + 1
+        if isinstance(st, ast.Assign) and len(st.targets) == 1 and isinstance(st.targets[0], ast.Name):
+            rhs[st.targets[0].id] = st.value
+    return {k: v for k, v in rhs.items() if cnt.get(k) == 1}
+
+
+def cmid_reader_rule(repo: Repo, rep, P: str, rule: str):
+    """Module.load_cmid: entry i (8 bytes at offset 8*i) goes to the i-th controller of the *complete* controller
+    table.  The CMID chunk precedes the options chunk, so the sequence must not depend on attachment state."""
+    from .. import alg
     mod = repo.cls("Module", module="rv.modules.module")
     lc = repo.own_method(mod, "load_cmid")
-    s2 = norm(lc)
-    if "offset = i * 8" in s2 and "data[offset:offset + 8]" in s2 and "self.controller_midi_maps[name].cmid_data = cmid_data" in s2:
-        rep.ok(f"{P}.R2", f"{mod.file.rel}:Module.load_cmid", "8-byte entries in controller order")
+    con = f"{mod.file.rel}:Module.load_cmid"
+    where = f"{mod.file.rel}:{lc.lineno}"
+    data = [a.arg for a in lc.args.args if a.arg != "self"]
+    fdefs = _once_defs(lc.body)
+    loops = [n for n in walk_no_nested(lc) if isinstance(n, ast.For)]
+    if len(loops) != 1 or not data:
+        rep.inconclusive(f"{P}.{rule}", con, norm(lc)[:120], f"{len(loops)} loops; expected one loop over the controllers", where)
+        return
+    lp = loops[0]
+    it = _resolve(lp.iter, fdefs)
+    if not (isinstance(it, ast.Call) and norm(it.func) == "enumerate" and it.args and isinstance(lp.target, ast.Tuple) and len(lp.target.elts) == 2):
+        rep.inconclusive(f"{P}.{rule}", con, norm(lp.iter), "loop is not `for i, name in enumerate(...)`", where)
+        return
+    seq = it.args[0]
+    start = norm(it.args[1]) if len(it.args) > 1 else next((norm(k.value) for k in it.keywords if k.arg == "start"), "0")
+    while isinstance(seq, ast.Call) and norm(seq.func) in ("list", "tuple", "iter") and len(seq.args) == 1:
+        seq = seq.args[0]
+    seqt = norm(seq)
+    ivar = norm(lp.target.elts[0])
+    nvar_node = lp.target.elts[1]
+    if seqt in ("self.controllers", "self.controllers.keys()") and isinstance(nvar_node, ast.Name):
+        nvar = nvar_node.id
+    elif seqt == "self.controllers.items()" and isinstance(nvar_node, ast.Tuple) and isinstance(nvar_node.elts[0], ast.Name):
+        nvar = nvar_node.elts[0].id
+    elif "attached" in seqt or any(isinstance(x, ast.comprehension) and x.ifs for x in ast.walk(seq)):
+        rep.violation(f"{P}.{rule}", con, f"enumerate({seqt[:100]})",
+                      "CMID entries are matched against a filtered controller sequence; the chunk is read before the options that decide "
+                      "which controllers are attached, so bindings of later-attached (user-defined) controllers are dropped or shifted",
+                      f"{mod.file.rel}:{lp.lineno}")
+        return
     else:
-        rep.violation(f"{P}.R2", f"{mod.file.rel}:Module.load_cmid", s2[:160], "CMID must be split into 8-byte entries in controller order",
-                      f"{mod.file.rel}:{lc.lineno}")
+        rep.inconclusive(f"{P}.{rule}", con, f"enumerate({seqt[:100]})", "controller sequence not recognised", f"{mod.file.rel}:{lp.lineno}")
+        return
+    if start != "0":
+        rep.violation(f"{P}.{rule}", con, norm(lp.iter), f"entry numbering starts at {start}, the writers start at 0", f"{mod.file.rel}:{lp.lineno}")
+        return
+    ldefs = _once_defs(lp.body)
+    # every store into controller_midi_maps[name]
+    stores = []
+    for n in ast.walk(lp):
+        if isinstance(n, ast.Assign) and len(n.targets) == 1:
+            t = n.targets[0]
+            if isinstance(t, ast.Attribute) and t.attr == "cmid_data" and norm(t.value) == f"self.controller_midi_maps[{nvar}]":
+                stores.append((n, n.value))
+            elif isinstance(t, ast.Subscript) and norm(t) == f"self.controller_midi_maps[{nvar}]" and isinstance(n.value, ast.Call) and n.value.args:
+                stores.append((n, n.value.args[0]))
+    if not stores:
+        rep.violation(f"{P}.{rule}", con, norm(lp)[:140], "the CMID record is never stored into controller_midi_maps[name]", f"{mod.file.rel}:{lp.lineno}")
+        return
+
+    def leaf(e):
+        if isinstance(e, ast.Name) and e.id == ivar:
+            return alg.Poly.sym("i")
+        return None
+    for st, val in stores:
+        v = _resolve(val, ldefs)
+        while isinstance(v, ast.Call) and norm(v.func) in ("bytes", "bytearray", "memoryview") and len(v.args) == 1:
+            v = v.args[0]
+        if not (isinstance(v, ast.Subscript) and isinstance(v.slice, ast.Slice) and norm(v.value) == data[0]
+                and v.slice.lower is not None and v.slice.upper is not None and v.slice.step is None):
+            rep.inconclusive(f"{P}.{rule}", con, norm(st), "stored record is not a slice of the chunk data", f"{mod.file.rel}:{st.lineno}")
+            continue
+        try:
+            lo, hi = alg.to_poly(v.slice.lower, leaf), alg.to_poly(v.slice.upper, leaf)
+        except alg.NotAlgebraic as e:
+            rep.inconclusive(f"{P}.{rule}", con, norm(st), f"slice bounds not affine: {e}", f"{mod.file.rel}:{st.lineno}")
+            continue
+        if lo == alg.Poly.sym("i") * 8 and hi - lo == alg.Poly.const(8):
+            rep.ok(f"{P}.{rule}", con, f"controller_midi_maps[{nvar}] ← {data[0]}[8·i : 8·i+8] over {seqt}", "8-byte entries in controller order")
+        else:
+            rep.violation(f"{P}.{rule}", con, norm(st),
+                          f"entry i is read from [{lo} : {hi}] instead of [8·i : 8·i+8]", f"{mod.file.rel}:{st.lineno}")
 
 
 # ------------------------------------------------------------------------------------ R3
